@@ -109,6 +109,11 @@ def check(ctx):
     import c08 as _c08
     npol2 = core.adopt(ctx, _c08, lambda o: o["rule"] == "C08.e" and ("abort-helper:" in o["key"] or "runner:" in o["key"]), "C11.polled")
     ctx.floor("C11.polled", npol2, 3, "shared poll-coverage obligations (C08.e)")
+    # ... and the collector itself leaves nothing behind: it drains the channel until it is empty, *including* what its own
+    # despawns release (an entity whose last handle is held by an entity collected in this pass; shared with C10.e)
+    import c10 as _c10
+    ngc = core.adopt(ctx, _c10, lambda o: o["rule"] == "C10.e", "C11.polled")
+    ctx.floor("C11.polled", ngc, 3, "shared collector obligations (C10.e)")
     # no event payload outlives its tree: the reader count equals the number of commands queued (shared with C05.a / C05.b)
     import c05 as _c05b
     npay = core.adopt(ctx, _c05b, lambda o: o["rule"] in ("C05.a", "C05.b"), "C11.payload")
